@@ -74,3 +74,11 @@ Fixpoint foff (fs : list field) (k : nat) : Z :=
   | _, _ => 0
   end.
 Definition fsizes (fs : list field) : Z := foff fs (length fs).
+
+(* replace element k of a list *)
+Fixpoint upd {A} (k : nat) (x : A) (l : list A) : list A :=
+  match l, k with
+  | [], _ => []
+  | _ :: r, O => x :: r
+  | y :: r, S k' => y :: upd k' x r
+  end.
